@@ -1,7 +1,7 @@
 (** C08 — independent implementations of the same model agree.  Property theorems only. *)
 From Coq Require Import Reals List ZArith.
 From Interval Require Import Real.Xreal Interval.Interval Eval.Prog Eval.Tree Eval.Eval.
-From FeosVerif Require Import ProgSem AssocC08.
+From FeosVerif Require Import ProgSem AssocC08 Canon.
 Local Open Scope R_scope.
 
 (** Two code paths whose regenerated programs are syntactically identical denote the same function:
@@ -47,3 +47,24 @@ Theorem C08_association_cc_root_unique : forall D rc, 0 <= D -> 0 <= rc ->
   forall x, 0 < x -> x * (1 + rc * D * x) = 1 -> x = xc_cc D rc.
 Proof. exact cc_root_unique. Qed.
 Print Assumptions C08_association_cc_root_unique.
+
+(** Two code paths whose regenerated programs the verified canonicaliser of [Canon.v] identifies (associativity and
+    commutativity of + and *, x - y = x + (-y), x / y = x * /y, x^2 = x * x, 0 * x = 0, 0 + x = x, -0 = 0, sharing;
+    constants identified by value) compute the same output for EVERY value of the shared environment: every state and
+    every value of the non-zero constants (total real semantics; second theorem: equal wherever both are defined). *)
+Theorem C08_canonical_programs_agree : forall A B zs piA piB oa ob (env : list R),
+  canon_eqb A B zs piA piB oa ob = true ->
+  length env = length zs ->
+  (forall j, (j < length zs)%nat -> nth j zs false = true -> nth j env 0 = 0) ->
+  nth oa (eval_real A (sel 0 piA env)) 0 = nth ob (eval_real B (sel 0 piB env)) 0.
+Proof. exact canon_sound. Qed.
+Print Assumptions C08_canonical_programs_agree.
+
+Theorem C08_canonical_programs_agree_where_defined : forall A B zs piA piB oa ob (env : list R),
+  canon_eqb A B zs piA piB oa ob = true ->
+  length env = length zs ->
+  (forall j, (j < length zs)%nat -> nth j zs false = true -> nth j env 0 = 0) ->
+  wf A (sel 0 piA env) oa -> wf B (sel 0 piB env) ob ->
+  out_ext A (sel 0 piA env) oa = out_ext B (sel 0 piB env) ob.
+Proof. exact canon_sound_ext. Qed.
+Print Assumptions C08_canonical_programs_agree_where_defined.
